@@ -244,6 +244,13 @@ impl Timeline for AbsTl {
     }
 }
 
+impl<Data: Clone> Keyframe<Data> {
+    /// Read access to the keyframe data for the derive-output harnesses (verification only).
+    pub fn verif_data(&self) -> Data {
+        self.data.clone()
+    }
+}
+
 impl<T: Timeline> MergedTimeline<T> {
     /// Read access to the private component list for the animator harnesses (verification only).
     pub(crate) fn timelines_ref(&self) -> &Vec<T> {
